@@ -40,10 +40,15 @@ struct FSource {
     pos: usize,
     chunk: usize,
     err: bool,
+    /// set once the source was asked for bytes it does not have (the fault was hit)
+    hit: bool,
 }
 impl Read for FSource {
     fn read(&mut self, buf: &mut [u8]) -> io::Result<usize> {
         if self.pos == self.data.len() {
+            if !buf.is_empty() {
+                self.hit = true;
+            }
             return if self.err { Err(io::Error::new(io::ErrorKind::Other, "fault")) } else { Ok(0) };
         }
         let n = (self.data.len() - self.pos).min(self.chunk).min(buf.len());
@@ -810,7 +815,7 @@ fn run(line: &str) -> String {
         "r" => {
             let k: usize = a[2].parse().unwrap();
             let data = unhex(a[5]);
-            let mut src = FSource { data: data[..k.min(data.len())].to_vec(), pos: 0, chunk: a[3].parse().unwrap(), err: a[4] == "1" };
+            let mut src = FSource { data: data[..k.min(data.len())].to_vec(), pos: 0, chunk: a[3].parse().unwrap(), err: a[4] == "1", hit: false };
             if a.len() > 6 {
                 let mx: usize = a[6].parse().unwrap();
                 let off: usize = a[7].parse().unwrap();
@@ -819,10 +824,10 @@ fn run(line: &str) -> String {
                     let res = read_limited(a[1], &mut lr);
                     (res, lim_state(&lr))
                 };
-                format!("{} pulled={}{}", res, src.pos, st)
+                format!("{} pulled={}{} # hit={}", res, src.pos, st, src.hit as u8)
             } else {
                 let res = read_plain(a[1], &mut src);
-                format!("{} pulled={}", res, src.pos)
+                format!("{} pulled={} # hit={}", res, src.pos, src.hit as u8)
             }
         }
         "lr" => {
@@ -830,7 +835,7 @@ fn run(line: &str) -> String {
             let off: usize = a[2].parse().unwrap();
             let k: usize = a[3].parse().unwrap();
             let data = unhex(a[6]);
-            let mut src = FSource { data: data[..k.min(data.len())].to_vec(), pos: 0, chunk: a[4].parse().unwrap(), err: a[5] == "1" };
+            let mut src = FSource { data: data[..k.min(data.len())].to_vec(), pos: 0, chunk: a[4].parse().unwrap(), err: a[5] == "1", hit: false };
             let (out, st) = {
                 let mut lr = LimitedReader::new(&mut src, mx, LenSource::Slice, off, Layer::Ipv4Header);
                 let mut out = Vec::new();
